@@ -38,13 +38,22 @@ def unordered_sites(fn: ast.FunctionDef):
         return (isinstance(e, ast.Name) and e.id in setvars) or isinstance(e, (ast.Set, ast.SetComp)) or \
             (isinstance(e, ast.Call) and isinstance(e.func, ast.Name) and e.func.id in ("set", "frozenset"))
 
+    def total_key(call):
+        """min / max with a key that cannot tie: a lambda returning a tuple one of whose components is the element itself"""
+        k = next((k.value for k in call.keywords if k.arg == "key"), None)
+        if isinstance(k, ast.Lambda) and len(k.args.args) == 1 and isinstance(k.body, ast.Tuple):
+            return any(isinstance(x, ast.Name) and x.id == k.args.args[0].arg for x in k.body.elts)
+        return False
+
     for n in ast.walk(fn):
         if isinstance(n, ast.Call):
             f = n.func
             if isinstance(f, ast.Name) and f.id in ("min", "max", "next", "list", "tuple", "iter", "enumerate", "zip") \
                     and n.args and is_setexpr(n.args[0]):
-                # the smallest / largest element itself does not depend on the iteration order; with a key, ties do
-                if not (f.id in ("min", "max") and not any(k.arg == "key" for k in n.keywords) and len(n.args) == 1):
+                # the smallest / largest element itself does not depend on the iteration order; with a key, ties do - unless the
+                # key contains the element (a total order: no two elements tie)
+                if not (f.id in ("min", "max") and len(n.args) == 1 and
+                        (not any(k.arg == "key" for k in n.keywords) or total_key(n))):
                     out.append((n, f.id, src(n.args[0])))
             if isinstance(f, ast.Attribute) and f.attr == "pop" and is_setexpr(f.value) and not n.args:
                 out.append((n, "pop", src(f.value)))
@@ -236,14 +245,40 @@ def _route_search_verdict(loop, env, sname, conds_out=None):
                 kinds.append(("nonstrict" if not seen_r and not mentions_routes else "unknown", sts, text))
             else:
                 kinds.append(("unknown", sts, text))
+    # AUDIT (the three negative verdicts below): "equally long routes are kept in visiting order" presupposes that
+    #  (1) what is stored is the candidate route itself - not a choice between the candidate and the stored route (min / max / sorted /
+    #      a conditional expression), which is a tie-break in the value;
+    #  (2) nothing after the loop of the choice writes the route table again (a later pass may canonicalise the routes);
+    #  (3) the set the choice is made from holds layout names (strings, hashed with a per-process salt): see _choice_elements.
+    # When one of them is not established the verdict is UNDECIDED.
+    def negative(why):
+        for st_ in stores:
+            v_ = st_[0].value
+            if any(isinstance(x, ast.Call) and isinstance(x.func, ast.Name) and x.func.id in ("min", "max", "sorted") for x in ast.walk(v_)) or \
+                    any(isinstance(x, ast.IfExp) for x in ast.walk(v_)) or st_[1] in src(expand(v_, env)):
+                return None, (f"`{src(st_[0])[:70]}` stores a choice between routes (the value itself compares the candidate with the stored "
+                              "route): whether that choice is a total tie-break was not decided")
+        fn_ = loop
+        while fn_ is not None and not isinstance(fn_, ast.FunctionDef):
+            fn_ = parent(fn_)
+        if fn_ is not None:
+            inside = {id(x) for x in ast.walk(loop)}
+            end = getattr(loop, "end_lineno", loop.lineno)
+            later = [x for x in ast.walk(fn_) if isinstance(x, ast.Attribute) and src(x) == ROUTE_TABLE and id(x) not in inside and
+                     x.lineno > end and not isinstance(parent(x), ast.Return)]
+            # the loop over the sources encloses the search: statements of the enclosing loops after the search loop count as well
+            if later:
+                return None, (f"the route table is used again after the search loop (line {later[0].lineno}): a later pass may replace "
+                              "the routes kept here, which was not followed")
+        return False, why
     for k, sts, text in kinds:
         if k == "nonstrict":
-            return False, (f"`{src(sts[0][0])[:70]}` is reached when `{text}`: the test is not strict, so an equally long route overwrites "
+            return negative(f"`{src(sts[0][0])[:70]}` is reached when `{text}`: the test is not strict, so an equally long route overwrites "
                            f"the stored one in visiting order, which is the hash order of `{sname}`: processes with different string "
                            "hash seeds keep different routes and then transpose over different communicators")
         if k == "equal":
-            return False, (f"`{src(sts[0][0])[:70]}` is reached when `{text}` without comparing the candidate with the stored route: "
-                           f"equally long routes overwrite each other in visiting order, which is the hash order of `{sname}`")
+            return negative(f"`{src(sts[0][0])[:70]}` is reached when `{text}` without comparing the candidate with the stored route: "
+                            f"equally long routes overwrite each other in visiting order, which is the hash order of `{sname}`")
     unk = [x for x in kinds if x[0] == "unknown"]
     if unk:
         return None, (f"`{src(unk[0][1][0][0])[:70]}` is reached when `{unk[0][2][:120]}`: not recognised as `candidate strictly shorter` or "
@@ -252,9 +287,9 @@ def _route_search_verdict(loop, env, sname, conds_out=None):
     if not ties:
         if not kinds:
             return None, "no reachable store into the route table"
-        return False, ("routes are replaced by strictly shorter ones only and there is no equal-distance tie-break: among equally long "
-                       f"routes the first visited wins, and the visiting order is the hash order of `{sname}`, so processes with "
-                       "different string hash seeds keep different routes and then transpose over different communicators")
+        return negative("routes are replaced by strictly shorter ones only and there is no equal-distance tie-break: among equally long "
+                        f"routes the first visited wins, and the visiting order is the hash order of `{sname}`, so processes with "
+                        "different string hash seeds keep different routes and then transpose over different communicators")
     for _, sts, text in ties:
         ks = {tuple(keys) for _, _, _, keys in sts}
         if not any((b_, a_) in ks for a_, b_ in ks):
@@ -393,8 +428,23 @@ def b4_choice_uniform(chk, mod, fn, conds, s):
     # values that differ between interpreters by construction
     local_defs = {n.name: n for n in ast.walk(fn) if isinstance(n, ast.FunctionDef) and n is not fn}
     bodies = list(exprs) + [st for nm in via_funcs for st in local_defs[nm].body]
+    # AUDIT: object identities, process ids and clocks are local to an interpreter by construction.  hash() is salted for strings
+    # only (hash of an integer is the integer) and a pseudo-random draw is the same everywhere when every rank seeds the generator
+    # alike: these two are reported only when the argument is a string / no seed() call is in the unit, else UNDECIDED
+    seeded = any(isinstance(n, ast.Call) and src(n.func).split(".")[-1] in ("seed", "default_rng", "RandomState") for n in ast.walk(mod.tree))
     for b_ in bodies:
         for n in ast.walk(b_):
+            if isinstance(n, ast.Call) and src(n.func) == "hash" and not (n.args and (
+                    (isinstance(n.args[0], ast.Constant) and isinstance(n.args[0].value, str)) or isinstance(n.args[0], ast.JoinedStr) or
+                    (isinstance(n.args[0], ast.Call) and src(n.args[0].func) in ("str", "repr", "tuple")) or
+                    ROUTE_TABLE in src(expand(n.args[0], _alias_env(fn))))):
+                return chk.ob("B4-choice-uniform", conds[0][0], "conditions of the route updates", None,
+                              f"the route update is governed by `{quoted}`, which uses `{src(n)[:50]}`: the hash of a string differs between "
+                              "interpreters, the hash of an integer does not; what is hashed here was not determined", file=mod.rel, func=q)
+            if isinstance(n, ast.Call) and src(n.func) in ("random.random", "np.random.rand", "np.random.random", "random.choice", "random.shuffle") and seeded:
+                return chk.ob("B4-choice-uniform", conds[0][0], "conditions of the route updates", None,
+                              f"the route update is governed by `{quoted}`, which uses `{src(n)[:50]}`; the unit seeds a generator: whether "
+                              "every rank draws the same numbers was not decided", file=mod.rel, func=q)
             if isinstance(n, ast.Call) and src(n.func) in ("hash", "id", "random.random", "np.random.rand", "np.random.random", "os.getpid",
                                                            "time.time", "random.choice", "random.shuffle"):
                 return chk.ob("B4-choice-uniform", conds[0][0], "conditions of the route updates", False,
@@ -403,6 +453,14 @@ def b4_choice_uniform(chk, mod, fn, conds, s):
                               "local), so ranks keep different routes and then transpose over different communicators", file=mod.rel, func=q)
     through = f" (through the local function(s) {', '.join(via_funcs)})" if via_funcs else ""
     nu = nonuniform(labels)
+    if nu and nu <= {"AXIS"}:
+        # AUDIT: the labels are a MAY analysis.  RANK / CLOCK / HASH / DATA come from explicit sources (Get_rank, clocks, set order, the
+        # field values); AXIS is attached to every attribute called size / shape / starts / ... whatever object it is read from: on
+        # its own it does not establish that the value differs between ranks
+        l0 = sorted(nu)[0]
+        return chk.ob("B4-choice-uniform", conds[0][0], "conditions of the route updates", None,
+                      f"the route update is governed by `{quoted}`, which reads `{origin[l0]}`{through}, labelled as a size / shape quantity "
+                      "(label AXIS): whether it is the extent of the rank's own block or a rank-uniform extent is not decided", file=mod.rel, func=q)
     if nu:
         l0 = sorted(nu)[0]
         return chk.ob("B4-choice-uniform", conds[0][0], "conditions of the route updates", False,
@@ -457,6 +515,50 @@ def b4_choice_uniform(chk, mod, fn, conds, s):
                   facts={"labels": sorted(labels), "call_sites": len(sites)})
 
 
+def _choice_elements(fn, setname, depth=0):
+    """what the set `setname` of the route search holds: 'names' when it is built from the keys / entries of a PARAMETER of the search
+    (the connection graph handed in: its nodes are layout names, strings, by the documented API), 'int' when it is built from
+    range(...) / integers, None when that was not followed"""
+    if depth > 3:
+        return None
+    params = {a.arg for a in fn.args.args}
+    try:
+        e = ast.parse(setname, mode="eval").body
+    except SyntaxError:
+        return None
+
+    def of(e, depth):
+        if depth > 4:
+            return None
+        if isinstance(e, ast.Name):
+            if e.id in params:
+                return "names"
+            ds = _defs_of(fn, e.id)
+            ks = {of(d.value, depth + 1) for d in ds}
+            return ks.pop() if len(ks) == 1 else None
+        if isinstance(e, ast.Call) and isinstance(e.func, ast.Name) and e.func.id in ("set", "frozenset", "list", "tuple", "sorted") and len(e.args) == 1:
+            return of(e.args[0], depth + 1)
+        if isinstance(e, ast.Call) and isinstance(e.func, ast.Name) and e.func.id == "range":
+            return "int"
+        if isinstance(e, ast.Call) and isinstance(e.func, ast.Attribute) and e.func.attr in ("keys", "copy", "difference", "union") and \
+                len(e.args) <= 1:
+            return of(e.func.value, depth + 1)
+        if isinstance(e, ast.Subscript):
+            return of(e.value, depth + 1)              # the neighbours of a node in the graph handed in
+        if isinstance(e, ast.BinOp) and isinstance(e.op, (ast.Sub, ast.BitOr, ast.BitAnd)):
+            return of(e.left, depth + 1)
+        if isinstance(e, (ast.Set, ast.List, ast.Tuple)) and e.elts:
+            if all(isinstance(x, ast.Constant) and isinstance(x.value, str) for x in e.elts):
+                return "names"
+            if all(isinstance(x, ast.Constant) and type(x.value) is int for x in e.elts):
+                return "int"
+        if isinstance(e, (ast.SetComp, ast.ListComp, ast.GeneratorExp)) and len(e.generators) == 1 and isinstance(e.elt, ast.Name) and \
+                isinstance(e.generators[0].target, ast.Name) and e.elt.id == e.generators[0].target.id:
+            return of(e.generators[0].iter, depth + 1)
+        return None
+    return of(e, 0)
+
+
 def b4_route_determinism(chk, mod, spmd=None):
     """The hash-ordered choice in the route search is compensated by a total-order
     tie-break on equal distances (DESIGN 4.1 B4 / 5 C06-4)."""
@@ -474,6 +576,14 @@ def b4_route_determinism(chk, mod, spmd=None):
             ok, detail = None, f"the choice `{kind}({sname})` is not made inside a loop: the route search was not recognised"
         else:
             ok, detail = _route_search_verdict(loop, env, sname, conds if not conds else None)
+        if ok is False:
+            el = _choice_elements(fn, sname)
+            if el == "int":
+                ok, detail = True, (f"the set `{sname}` holds small integers, which every interpreter iterates in the same order: the choice is "
+                                    "the same on every rank whatever the tie-break")
+            elif el != "names":
+                ok, detail = None, (f"what the set `{sname}` holds was not followed to the connection graph handed to the search (layout "
+                                    "names, strings): whether its iteration order differs between interpreters is not decided; " + detail[:200])
         chk.ob("B4-unordered-choice", node, f"{kind}({sname})", ok, detail, file=mod.rel,
                func="LayoutManager._makeConnectionMap")
         ok_all = ok_all and (ok is not False)
@@ -749,6 +859,8 @@ def refine_tables(chk, held, s):
     variable takes the entries of its column only"""
     for rule, node, construct, ok, msg, kw in held:
         fi = s.funcs.get((kw.get("file"), kw.get("func")))
+        # AUDIT: engine B's verdict (a MAY-label of the loop bound / op / root is rank-dependent) stands unless the finer reading below
+        # shows the quantity to be fixed by the source text
         verdict, why = False, msg
         if fi is not None and rule == "B1-loop-trip-uniform" and isinstance(node, ast.For) and not str(construct).startswith("break in"):
             rows = _table_rows(fi.node, node.iter)
@@ -782,6 +894,7 @@ class _Deferring:
         object.__setattr__(self, "_chk", chk)
         object.__setattr__(self, "_held", [])
         object.__setattr__(self, "_held_tables", [])
+        object.__setattr__(self, "_held_guards", [])
 
     def __getattr__(self, k):
         return getattr(self._chk, k)
@@ -794,10 +907,83 @@ class _Deferring:
                 and isinstance(node, ast.Call):
             self._held.append((rule, node, construct, ok, msg, kw))
             return None
+        if rule == "B1-balanced-region" and ok is False and isinstance(node, ast.If):
+            self._held_guards.append((rule, node, construct, ok, msg, kw))
+            return None
         if rule in ("B1-loop-trip-uniform", "B2-op-uniform", "B2-root-uniform") and ok is False:
             self._held_tables.append((rule, node, construct, ok, msg, kw))
             return None
         return self._chk.ob(rule, node, construct, ok, msg, **kw)
+
+
+_FRESH = {"np.asarray", "np.array", "np.atleast_1d", "np.asanyarray", "np.zeros", "np.empty", "np.ones", "np.arange", "np.full", "list",
+          "tuple", "np.ascontiguousarray", "numpy.asarray", "numpy.array"}
+
+
+def refine_guards(chk, held, s):
+    """AUDIT of engine B's `rank-dependent guard` verdicts.  Engine B labels every attribute called size / shape / starts / ends / ...
+    as varying with the block of the rank (label AXIS), whatever object it is read from.  That is true of layouts, grids and their
+    data; it is not true of an array freshly made from rank-uniform values (np.asarray(<parameter>), a list display, np.zeros(n)):
+    its size is the same everywhere.  When the guard is labelled rank-dependent ONLY through such attributes, the diagnosis
+    `the alternatives issue different collective sequences on different ranks` is not established: UNDECIDED."""
+    from ..spmd import nonuniform, RANKDEP_ATTR
+    for rule, node, construct, ok, msg, kw in held:
+        fi = s.funcs.get((kw.get("file"), kw.get("func")))
+        verdict, why = ok, msg
+        if fi is not None:
+            lf = s.analyse(fi)
+
+            def fresh(b, depth=0):
+                if depth > 3:
+                    return False
+                if isinstance(b, ast.Name):
+                    v = _single_local_def(fi.node, b.id)
+                    return v is not None and fresh(v, depth + 1)
+                if isinstance(b, (ast.List, ast.Tuple)):
+                    return not nonuniform(lf.at.get(b, {"?"}) if b in lf.at else set().union(*[lf.at.get(x, set()) for x in b.elts]) if b.elts else set())
+                if isinstance(b, ast.Call) and src(b.func) in _FRESH:
+                    args = list(b.args) + [k.value for k in b.keywords]
+                    return all(x in lf.at and not nonuniform(lf.at[x]) for x in args if not isinstance(x, ast.Constant))
+                return False
+
+            def lab(e):
+                if isinstance(e, ast.Attribute) and e.attr in RANKDEP_ATTR and RANKDEP_ATTR[e.attr] == "AXIS" and fresh(e.value):
+                    return set()
+                if isinstance(e, (ast.BoolOp, ast.Compare, ast.BinOp, ast.UnaryOp)) or \
+                        (isinstance(e, ast.Call) and isinstance(e.func, ast.Name) and e.func.id in ("len", "int", "bool", "abs", "min", "max")):
+                    out = set()
+                    for ch in ast.iter_child_nodes(e):
+                        if isinstance(ch, ast.expr):
+                            out |= lab(ch)
+                    return out
+                return set(lf.at.get(e, set())) if e in lf.at else {"?"}
+            try:
+                finer = lab(node.test)
+            except Exception:
+                finer = {"?"}
+            if "?" not in finer and not nonuniform(finer) and nonuniform(lf.at.get(node.test, set())):
+                verdict = None
+                why = ("engine B labels the guard rank-dependent only through the size / shape of an array freshly made from rank-uniform "
+                       "values (such an attribute varies with the rank on layouts and grids, not here): whether the alternatives are "
+                       "taken by different ranks is not established; " + msg[:200])
+            elif nonuniform(lf.at.get(node.test, set())) <= {"AXIS"}:
+                # the only rank-dependent label is AXIS (block geometry), which engine B attaches to attributes BY NAME and carries along
+                # through records, tables and loop variables (it merges the fields of a row).  The diagnosis is kept when the guard,
+                # with its single-assignment locals written out, reads such an attribute itself or calls something that may; a guard
+                # made of names / other attributes / constants only got the label through the merge: not established
+                try:
+                    t_ = expand(node.test, inline_locals(fi.node))
+                except Exception:
+                    t_ = node.test
+                reads_geometry = any(isinstance(x, ast.Attribute) and RANKDEP_ATTR.get(x.attr) == "AXIS" for x in ast.walk(t_))
+                import builtins as _b
+                calls_out = any(isinstance(x, ast.Call) and not (isinstance(x.func, ast.Name) and hasattr(_b, x.func.id)) for x in ast.walk(t_))
+                if not reads_geometry and not calls_out:
+                    verdict = None
+                    why = ("engine B labels the guard with AXIS (block geometry) although it reads no size / shape / start / end attribute "
+                           "and calls nothing: the label reached it through a record, table or loop variable whose fields the label "
+                           "domain merges; whether the guard differs between ranks is not established; " + msg[:200])
+        chk.ob(rule, node, construct, verdict, why, **kw)
 
 
 def _actual_of(call, callee, p):
@@ -888,6 +1074,57 @@ def _rank_comm(prog, mod, fn, x, env):
     return None
 
 
+def _callers_pass_same(chk, fn, a, b):
+    """a and b are communicator expressions of fn, at least one of them a parameter: does every call site of fn (in the units of the
+    check) pass for the parameter(s) the very expression the other one denotes?  Only the simple, decidable case: both are
+    parameters and every site passes one expression for both.  -> True / False"""
+    ps = [x.arg for x in fn.args.args]
+    if not (a in ps and b in ps):
+        return False
+    name = fn.name
+    sites = []
+    for rel in UNITS:
+        for c in ast.walk(chk.mod(rel).tree):
+            if isinstance(c, ast.Call) and ((isinstance(c.func, ast.Name) and c.func.id == name) or
+                                            (isinstance(c.func, ast.Attribute) and c.func.attr == name)):
+                sites.append(c)
+    if not sites:
+        return False
+    off = 1 if ps and ps[0] == "self" else 0
+    for c in sites:
+        if any(isinstance(x, ast.Starred) for x in c.args) or any(k.arg is None for k in c.keywords):
+            return False
+        kw = {k.arg: k.value for k in c.keywords}
+        va = c.args[ps.index(a) - off] if 0 <= ps.index(a) - off < len(c.args) else kw.get(a)
+        vb = c.args[ps.index(b) - off] if 0 <= ps.index(b) - off < len(c.args) else kw.get(b)
+        if va is None or vb is None or src(va) != src(vb):
+            return False
+    return True
+
+
+def _callers_pass_kept(chk, fn, comm_param, dcomm, meth):
+    """does every call site of the method fn pass, for its parameter `comm_param`, the attribute in which the constructor keeps
+    the communicator `dcomm` (self.K = dcomm in `meth`)?"""
+    kept = {t.attr for n in ast.walk(meth) if isinstance(n, ast.Assign) and src(n.value) == dcomm
+            for t in n.targets if isinstance(t, ast.Attribute) and src(t.value) == "self"}
+    if not kept:
+        return False
+    ps = [x.arg for x in fn.args.args]
+    off = 1 if ps and ps[0] == "self" else 0
+    sites = [c for rel in UNITS for c in ast.walk(chk.mod(rel).tree)
+             if isinstance(c, ast.Call) and isinstance(c.func, ast.Attribute) and c.func.attr == fn.name]
+    if not sites:
+        return False
+    for c in sites:
+        if any(isinstance(x, ast.Starred) for x in c.args) or any(k.arg is None for k in c.keywords):
+            return False
+        k = ps.index(comm_param) - off
+        a = c.args[k] if 0 <= k < len(c.args) else next((kw.value for kw in c.keywords if kw.arg == comm_param), None)
+        if not (isinstance(a, ast.Attribute) and a.attr in kept and src(a.value) == src(c.func.value)):
+            return False
+    return True
+
+
 def b6_root_role(chk, prog):
     """where a function asks `am I the root of this collective?`, the rank it compares with the root must be the rank on the
     communicator of the collective: a rank is a numbering of ONE communicator"""
@@ -924,7 +1161,12 @@ def b6_root_role(chk, prog):
                     if rc[0] == "expr":
                         if rc[1] == comm:
                             ok, why = True, f"`{src(g)}` compares the rank on `{comm}` with the root of `{coll}`"
+                        elif (comm in params or rc[1] in params) and _callers_pass_same(chk, fn, comm, rc[1]):
+                            ok, why = None, (f"`{src(g)}` uses the rank on `{rc[1]}` for the root of `{coll}`; every call site found passes one "
+                                             "and the same communicator for both: whether the two can differ is not decided")
                         elif comm in params or rc[1] in params:
+                            # AUDIT: one of the two communicators is a parameter and some call site (or none found) passes something
+                            # that is not provably the other one
                             ok, why = False, (f"`{src(g)}` decides who acts as the root of `{coll}` with the rank on `{rc[1]}`, but `{root}` is a "
                                               f"rank on `{comm}`: the two numberings agree only if both are the same communicator; otherwise the "
                                               "root of the collective takes the member branch (no receive buffer) and another rank the root branch")
@@ -942,7 +1184,13 @@ def b6_root_role(chk, prog):
                         if same:
                             ok, why = True, (f"`{attr}` is the rank on `{dcomm}`, the communicator kept as `{comm}` by "
                                              f"{getattr(meth, '_qual', meth.name)}: the same numbering as the root of `{coll}`")
+                        elif comm in params and _callers_pass_kept(chk, fn, comm, dcomm, meth):
+                            ok, why = None, (f"`{src(g)}` uses `{attr}` (rank on `{dcomm}`) for the root of `{coll}`; every call site found passes "
+                                             "the communicator the object keeps: whether the two can differ is not decided")
                         elif comm in params:
+                            # AUDIT: the collective runs on a communicator handed in as a parameter, the rank is the one on the
+                            # communicator given to the constructor, and some call site (or none found) passes something else than the
+                            # kept communicator
                             ok, why = False, (f"`{src(g)}` decides who acts as the root of `{coll}` with `{attr}`, the rank on the communicator "
                                               f"`{dcomm}` given to {getattr(meth, '_qual', meth.name)}, but `{root}` is a rank on the communicator "
                                               f"`{comm}` passed to {q}: the numberings agree only when both are the same communicator; on any other "
@@ -1080,6 +1328,9 @@ def b7_collective_counts(chk):
                            (" = size x the send count" if c.func.attr == "Allgather" else ", the same number"), file=rel, func=q)
                     continue
                 loc_s, loc_r = _local_size(fn, ls[0]), _local_size(fn, lr[0])
+                # AUDIT: Alltoall / Allgather take their counts from the buffer lengths, which must be the same on every rank.  One
+                # buffer is cut to `<layout>.size` / np.prod(<layout>.shape), the number of points of the rank's OWN block (Layout.size
+                # is the product of the local shape), which differs between ranks for uneven blocks, and the other buffer is not
                 if (loc_s is None) != (loc_r is None):
                     side, loc, other = ("send", loc_s, src(lr[0])) if loc_s else ("receive", loc_r, src(ls[0]))
                     chk.ob("B7-collective-counts", c, what, False,
@@ -1130,6 +1381,9 @@ def b8_local_raise(chk, s, tracers):
                        f"`{src(r)[:60]}` is reached under a test on block sizes or shapes (labels {sorted(nu)}), with collectives still to "
                        "come: whether the test can differ between ranks is not decided", file=fi.rel, func=fi.qual, facts={"labels": sorted(labs)})
                 continue
+            # AUDIT: the raise is an explicit statement of the function itself (not inside a handler), collectives of the same function
+            # (or of the loop around it) come after it, and the labels of its guards include RANK / DATA / CLOCK / HASH (explicit
+            # sources); guards labelled AXIS only are UNDECIDED above
             chk.ob("B8-local-raise", r, f"raise under `{' and '.join(tests)[:90]}`", not nu,
                    "the condition is rank-uniform: every rank raises or none" if not nu else
                    f"`{src(r)[:60]}` is reached under `{' and '.join(tests)[:90]}`, which differs between ranks (labels {sorted(nu)}); "
@@ -1231,6 +1485,9 @@ def b9_ordered_collective_loops(chk, s, tracers):
                 continue
             n += 1
             kind = st_[1]
+            # AUDIT: the loop body issues collectives (engine B's event sites), the loop runs over a set (display, set() / frozenset(),
+            # set algebra, a local or class attribute bound once to one) not wrapped in sorted(), and its elements are string LITERALS
+            # written in the source ('str'); elements that were not determined are UNDECIDED
             ok = True if kind == "int" else False if kind == "str" else None
             chk.ob("B9-collective-order", lp, f"for {src(lp.target)} in {src(lp.iter)[:60]}", ok,
                    "the set holds small integers, whose iteration order is the same in every interpreter" if ok else
@@ -1292,6 +1549,22 @@ def b10_split_roles(chk):
                     same = src(other) == src(ref)
                     if not same and any(isinstance(x, (ast.IfExp, ast.BoolOp, ast.Compare, ast.Lambda)) for x in ast.walk(other)):
                         same = None                   # a conditional designation: may well be the same rank in every case that matters
+                    if same is False:
+                        # AUDIT: "the process treated as split off is not the one that was split off" presupposes that the test decides
+                        # the role in the split: the statement it governs uses the communicator the split returned (or the test is
+                        # handed on as a flag); a test of the rank against a neighbouring value for another purpose is not that
+                        st_ = g
+                        while st_ is not None and not isinstance(st_, ast.stmt):
+                            st_ = parent(st_)
+                        sp_stmt = sp_
+                        while sp_stmt is not None and not isinstance(sp_stmt, ast.stmt):
+                            sp_stmt = parent(sp_stmt)
+                        new_comms = {t.id for t in getattr(sp_stmt, "targets", []) if isinstance(t, ast.Name)} if isinstance(sp_stmt, ast.Assign) else set()
+                        # the split may sit in a branch (`if plot: c = comm.Split(...) else: c = comm`): every name it is bound to
+                        uses_new = isinstance(st_, (ast.If, ast.While)) and new_comms and \
+                            any(isinstance(x, ast.Name) and x.id in new_comms for x in ast.walk(st_))
+                        if not uses_new:
+                            same = None
                     chk.ob("B10-split-role", g, f"{src(g)[:60]} vs {comm}.Split({src(sp_.args[0])[:40]}, ...)", same,
                            f"the rank tested is the rank the communicator is split by (`{src(ref)}`)" if same else
                            f"`{src(g)[:70]}` designates the rank `{src(other)}` of `{comm}`, but the communicator was split by "
@@ -1414,9 +1687,57 @@ def b4_input_order(chk, prog=None):
                 st_ = _set_typed(fn, x)
                 if st_ is not None and st_[1] != "int":
                     lit = _resolve_literal(fn, x) if isinstance(x, (ast.Name, ast.Attribute)) else x
-                    hashed.append((node, it, lit))
-            if hashed:
-                node, it, lit = hashed[0]
+                    hashed.append((node, it, lit, st_[1]))
+            # AUDIT: "a set of layout names" = the elements are string literals, or the set is made from the keys / entries of a
+            # parameter of the caller (the layouts handed to the manager: names by the documented API); a set whose elements were not
+            # determined is UNDECIDED
+            def names_like(e, depth=0):
+                if depth > 7:
+                    return False
+                ps_ = {a.arg for a in fn.args.args}
+                def filled_with_names(text):
+                    """keys / entries stored into the container `text` (element stores, append / add) come from something names-like"""
+                    for n_ in ast.walk(fn):
+                        ks_ = []
+                        if isinstance(n_, ast.Assign):
+                            ks_ = [t_.slice for t_ in n_.targets if isinstance(t_, ast.Subscript) and src(t_.value) == text]
+                        elif isinstance(n_, ast.Call) and isinstance(n_.func, ast.Attribute) and n_.func.attr in ("append", "add") and \
+                                src(n_.func.value) == text and n_.args:
+                            ks_ = [n_.args[0]]
+                        if any(names_like(k_, depth + 1) for k_ in ks_):
+                            return True
+                    return False
+                if isinstance(e, ast.Name):
+                    if e.id in ps_ or any(names_like(d.value, depth + 1) for d in _defs_of(fn, e.id)) or filled_with_names(e.id):
+                        return True
+                    # a loop variable: what the loop runs over
+                    for n_ in ast.walk(fn):
+                        if isinstance(n_, (ast.For, ast.comprehension)) and any(isinstance(x_, ast.Name) and x_.id == e.id for x_ in ast.walk(n_.target)) \
+                                and names_like(n_.iter, depth + 1):
+                            return True
+                    return False
+                if isinstance(e, ast.Call) and isinstance(e.func, ast.Name) and e.func.id in ("set", "frozenset", "list", "tuple", "enumerate", "sorted", "dict") and e.args:
+                    return names_like(e.args[0], depth + 1)
+                if isinstance(e, ast.Call) and isinstance(e.func, ast.Attribute) and e.func.attr in ("keys", "copy", "union", "difference", "values", "items"):
+                    return names_like(e.func.value, depth + 1)
+                if isinstance(e, (ast.SetComp, ast.ListComp, ast.GeneratorExp)):
+                    return any(names_like(g_.iter, depth + 1) for g_ in e.generators)
+                if isinstance(e, ast.BinOp):
+                    return names_like(e.left, depth + 1) or names_like(e.right, depth + 1)
+                if isinstance(e, ast.Subscript):
+                    return names_like(e.value, depth + 1)
+                if isinstance(e, ast.Attribute) and isinstance(e.value, ast.Name) and e.value.id == "self":
+                    lit_ = _resolve_literal(fn, e)
+                    return (lit_ is not e and names_like(lit_, depth + 1)) or filled_with_names(src(e))
+                return False
+            if hashed and not any(k_ == "str" or names_like(l_) for _, _, l_, k_ in hashed):
+                node, it, lit, _ = hashed[0]
+                chk.ob("B4-input-order", node, what, None,
+                       f"the table `{src(actual)}` handed to the route search is filled while iterating over the set `{src(it)[:50]}`; what "
+                       "the set holds (layout names, whose order differs between interpreters, or integers, whose order does not) was not "
+                       "determined", file=lay.rel, func=q)
+            elif hashed:
+                node, it, lit, _ = next(h_ for h_ in hashed if h_[3] == "str" or names_like(h_[2]))
                 chk.ob("B4-input-order", node, what, False,
                        f"the table `{src(actual)}` handed to the route search is filled while iterating over `{src(it)[:50]}`" +
                        (f" (= `{src(lit)[:50]}`)" if lit is not it and src(lit) != src(it) else "") + ", a set of layout names: its keys and "
@@ -1521,7 +1842,20 @@ def b11_topology_size(chk):
                     continue
                 split_of = [d for d in cdefs if isinstance(d, ast.Call) and isinstance(d.func, ast.Attribute) and d.func.attr == "Split" and
                             src(d.func.value) in comms_of_size]
-                if ce.id not in comms_of_size and split_of:
+                from ..core import guards_of
+                rank_guard = [t_ for t_, _, k_ in guards_of(c) if k_ in ("if", "while") and
+                              any((isinstance(x, ast.Call) and isinstance(x.func, ast.Attribute) and x.func.attr == "Get_rank") or
+                                  (isinstance(x, ast.Name) and "rank" in x.id.lower()) or
+                                  (isinstance(x, ast.Attribute) and "rank" in x.attr.lower()) for x in ast.walk(t_))]
+                more_sites = [x for x in sites if x[0] is not c and isinstance(x[1], ast.Name) and x[1].id == ce.id]
+                if ce.id not in comms_of_size and split_of and rank_guard and not more_sites:
+                    # AUDIT: the diagnosis says that the OTHER group of the split also asks for this grid; when the creation is made
+                    # under a test on the rank (and nowhere else in the function) only one group may reach it
+                    chk.ob("B11-topology-size", c, what, None,
+                           f"the process grid `{ge.id}` is computed for `{src(sizes[0])[:60]}` processes, a quantity of the communicator "
+                           f"`{sorted(comms_of_size)[0]}` that `{ce.id}` was split from; the topology is created under `{src(rank_guard[0])[:50]}`: "
+                           "whether the ranks of the other group reach it is not decided", file=rel, func=q)
+                elif ce.id not in comms_of_size and split_of:
                     par_ = sorted(comms_of_size)[0]
                     chk.ob("B11-topology-size", c, what, False,
                            f"the process grid `{ge.id}` is computed for `{src(sizes[0])[:70]}` processes, a quantity of the communicator `{par_}`, "
@@ -1647,6 +1981,10 @@ def b12_fs_race(chk, s, tracers):
                            f"writes to the file system afterwards (`{src(w)[:40]}`) with no collective in between; whether the write touches "
                            "what the test looks at was not established", file=fi.rel, func=fi.qual)
                 elif racy:
+                    # AUDIT: a collective is control dependent on a file-system test that several ranks evaluate (not under a test on the
+                    # rank), the function writes to the file system after the test on a path with no collective in between (so
+                    # nothing orders the write after every rank's test), and the path written shares a name / a piece of text with
+                    # the path tested (otherwise UNDECIDED above)
                     # the write whose path shares most with the tested path (a string piece counts as much as a name; later writes first)
                     best = max(scored, key=lambda x: (len({y for y in rw & path_words(ast.Tuple(elts=list(x[2].args), ctx=ast.Load()))
                                                           if not y.startswith("$")}), x[0]))
@@ -1749,6 +2087,8 @@ def b5_gatherv_geometry(chk):
                 if any(_one_of(subs[0].value, (f"np.cumsum({u})",)) for u in upto):
                     pieces["displs"] = True
                 elif _one_of(subs[0].value, (f"np.cumsum({cn}[1:])", f"np.cumsum({cn})[1:]")):
+                    # AUDIT (both `bad` forms of the displacements): `dn` IS the displacement entry of the receive specification of the
+                    # Gatherv call (third entry of the tuple, resolved by spec_of), `cn` its count entry, each bound once in the method
                     bad = (f"the displacements `{dn}[1:] = {src(subs[0].value)}` are not the exclusive prefix sums of the counts `{cn}`: "
                            "block r does not start where blocks 0..r-1 end, so the gathered blocks overlap or leave gaps")
             elif len(dd) == 1 and not subs:
@@ -1789,6 +2129,8 @@ def b5_gatherv_geometry(chk):
                         grow = isinstance(g.ops[0], (ast.Gt, ast.GtE, ast.NotEq)) if need_left else \
                             isinstance(g.ops[0], (ast.Lt, ast.LtE, ast.NotEq))
                         if not grow:
+                            # AUDIT: the receive buffer of the specification is a view of an attribute kept between calls, and the
+                            # only test of its size re-allocates it when it is too LARGE, never when it is too small
                             bad = (f"the receive buffer `{rn}` is a view of the kept `{attr}`, which is re-allocated only when `{src(g)}`: "
                                    "a later, larger request gets a receive buffer shorter than the counts the members send")
     chk.pat("B5-gatherv-geometry", calls[0], "root: recv = empty(sum(counts)), displs = exclusive cumsum(counts), counts gathered from the members",
@@ -1825,6 +2167,8 @@ def b5_gatherv_geometry(chk):
                     if pack == b["_unpack"][0]:
                         ok2 = True
                     else:
+                        # AUDIT (relational): where the members put the size in the record (one display, after every definition of
+                        # the send buffer, no later append) against the entry the root takes as the count
                         bad2 = (f"the members put the size of their buffer {pack} in the record (`{src(idefs[0])[:60]}`) but the root takes "
                                 f"the {b['_unpack'][0]} entry (`{b['_unpack'][1]}`) as the count: the counts handed to Gatherv are MPI "
                                 "coordinates, not the sizes the members send")
@@ -1921,9 +2265,10 @@ def run(chk):
         s, tracers = run_spmd(proxy, prog, UNITS, b4_ok_funcs=("_makeConnectionMap",) if b4ok else ())
     except Exception:
         # engine B stopped early: what it had established stays as it reported it
-        for rule, node, construct, ok, msg, kw in proxy._held + proxy._held_tables:
+        for rule, node, construct, ok, msg, kw in proxy._held + proxy._held_tables + proxy._held_guards:
             chk.ob(rule, node, construct, ok, msg, **kw)
         raise
+    refine_guards(chk, proxy._held_guards, s)
     refine_presence(chk, proxy._held, s)
     refine_tables(chk, proxy._held_tables, s)
     b8_local_raise(chk, s, tracers)
